@@ -595,6 +595,17 @@ func (l *Lowerer) builtin(name string, ce *ast.CallExpr) ([]*Term, []types.Type)
 			}
 		}
 	case "append":
+		if !l.spec {
+			env := map[string]envEntry{}
+			l.callSiteNamed("append", env, ce)
+			after := l.afterCall
+			l.afterCall = nil
+			res, tys := l.appendCall(ce)
+			for _, f := range after {
+				f()
+			}
+			return res, tys
+		}
 		return l.appendCall(ce)
 	case "copy":
 		return l.copyCall(ce)
@@ -748,8 +759,9 @@ func (l *Lowerer) appendCall(ce *ast.CallExpr) ([]*Term, []types.Type) {
 		if x.Sort != "Str" {
 			l.quantN++
 			bv2 := &Term{Op: "bound", Name: fmt.Sprintf("ai!%d", l.quantN), Sort: "Int"}
+			// stated over the result index so that the result element is the trigger
 			l.assume(&Term{Op: "forall", Sort: "Bool", Args: []*Term{bv2,
-				Implies(And(Le(IntLit(0), bv2), Lt(bv2, xlen)), Eq(Select(bt, Add(n, bv2)), r.sIndex(x, bv2)))}})
+				Implies(And(Le(n, bv2), Lt(bv2, Add(n, xlen))), Eq(Select(bt, bv2), r.sIndex(x, Sub(bv2, n))))}})
 		}
 	} else {
 		k := len(ce.Args) - 1
@@ -919,7 +931,7 @@ func (l *Lowerer) callSiteClauses(callee *types.Func, recv *Term, recvTyp types.
 	if top.contract == nil || top.contract.CallSites == nil || l.spec {
 		return
 	}
-	if len(top.contract.CallSites[callee.Name()]) == 0 && len(top.contract.CallSiteMods[callee.Name()]) == 0 {
+	if !top.contract.hasCallSite(callee.Name()) {
 		return
 	}
 	sig := callee.Type().(*types.Signature)
@@ -949,7 +961,11 @@ func (l *Lowerer) callSiteNamed(name string, env map[string]envEntry, ce ast.Nod
 	if top.contract == nil || l.spec {
 		return
 	}
-	cls := top.contract.CallSites[name]
+	// "name#k" selects the k-th occurrence (in lowering order) of the operation in this function
+	ord := l.siteOrd[name]
+	l.siteOrd[name] = ord + 1
+	cls := append([]*Clause{}, top.contract.CallSites[name]...)
+	cls = append(cls, top.contract.CallSites[fmt.Sprintf("%s#%d", name, ord)]...)
 	for _, c := range cls {
 		if c.Kind != "callsite-requires" {
 			continue
@@ -971,7 +987,8 @@ func (l *Lowerer) callSiteNamed(name string, env map[string]envEntry, ce ast.Nod
 			effs = append(effs, c)
 		}
 	}
-	mods := top.contract.CallSiteMods[name]
+	mods := append([]string{}, top.contract.CallSiteMods[name]...)
+	mods = append(mods, top.contract.CallSiteMods[fmt.Sprintf("%s#%d", name, ord)]...)
 	if len(effs) == 0 && len(mods) == 0 {
 		return
 	}
@@ -1941,6 +1958,7 @@ func (l *Lowerer) externalCall(callee *types.Func, recv *Term, recvTyp types.Typ
 	// generic external: results unconstrained. Slice arguments that are lvalues may be written.
 	// Repo objects passed by reference, closures or interface values may be called back: havoc.
 	callback := false
+	litCallback := false
 	for i, a := range ce.Args {
 		at := atys[i]
 		if at == nil {
@@ -1948,7 +1966,12 @@ func (l *Lowerer) externalCall(callee *types.Func, recv *Term, recvTyp types.Typ
 		}
 		switch u := at.Underlying().(type) {
 		case *types.Signature:
-			callback = true
+			if _, isLit := ast.Unparen(a).(*ast.FuncLit); isLit && callsBack(full) {
+				// a literal closure: its effects were recorded when it was created and are applied below
+				litCallback = true
+			} else if callsBack(full) {
+				callback = true
+			}
 		case *types.Slice:
 			if pkgPath(callee) != "fmt" && pkgPath(callee) != "errors" && !isLogger(full) {
 				if lv := l.slicePlace(a); lv != nil {
@@ -1968,6 +1991,10 @@ func (l *Lowerer) externalCall(callee *types.Func, recv *Term, recvTyp types.Typ
 				callback = true
 			}
 		}
+	}
+	if litCallback && !callback {
+		l.bumpAlloc()
+		l.havocEscaped()
 	}
 	if callback {
 		l.note("havoc-call: external " + full + " may call back into the package")
@@ -1994,9 +2021,12 @@ func isLogger(full string) bool {
 
 // callsBack: externals that invoke methods of, or write through, their arguments.
 func callsBack(full string) bool {
-	for _, p := range []string{"sort.", "container/heap.", "(*sync.Once)", "io.", "encoding/", "(*github.com/eapache", "github.com/rcrowley"} {
+	if strings.Contains(full, "github.com/rcrowley/go-metrics") {
+		return false // metrics registry: stores and reads metric objects only
+	}
+	for _, p := range []string{"sort.", "container/heap.", "(*sync.Once)", "io.", "encoding/", "(*github.com/eapache"} {
 		if strings.HasPrefix(full, p) {
-			return p != "github.com/rcrowley"
+			return true
 		}
 	}
 	if strings.HasPrefix(full, "fmt.") || strings.HasPrefix(full, "errors.") || isLogger(full) ||
